@@ -58,7 +58,10 @@ def main():
 
             g, e = cv(r["got"]), cv(r["exp"])
             scale = max(abs(e), abs(g), 1)
-            bad = not (abs(g - e) <= tol * scale)  # also true for nan / inf
+            if r.get("scale") is not None:
+                scale = abs(runner._parse_num(r["scale"]))
+                tol = getattr(h, "fp_tol", tol)
+            bad = not (abs(g - e) <= tol * scale + 1e-280)  # also true for nan / inf; doubles underflow below 1e-280
             out = {"verdict": "native-disagrees-with-spec" if bad else "native-agrees-with-spec",
                    "native": r["got"], "spec": r["exp"], "tolerance": tol}
         elif r["status"] == "failed":
